@@ -105,7 +105,7 @@ impl Check for C09 {
         for t in pos_tails() {
             let tail = if t.is_empty() { Tail::None } else { Tail::Pos(t.clone()) };
             let k = t.len();
-            let len = tier.pick(if k >= 3 { 4 } else { 4 }, 5);
+            let len = tier.pick(if k >= 3 { 4 } else { 5 }, 6);
             // beside nothing / a switch / an argument
             out.push(Unit { level: fam::leaf(vec![], tail.clone()), len: len + tier.pick(1, 1) });
             out.push(Unit { level: fam::leaf(vec![fam::named(0, Kind::Switch, 1, seed)], tail.clone()), len });
@@ -152,6 +152,6 @@ impl Check for C09 {
         "definitions = every unambiguous positional suffix of 0..3 items (required* then required|optional|many|some; plus non_strict variadic followed by strict items) with every strictness assignment {unrestricted, strict, non_strict}, beside nothing / a switch / an optional argument / below a sub-command; every vector of the token tree over {v, w, -, --, --help, -z, declared names, --name, --name=--, command name}; judged by the reference scanner: first `--` splits, is never delivered, right side is verbatim positional data (so `-- --help` is data), left words go to unrestricted/non_strict positionals and right words to unrestricted/strict ones in order; `--name --` fails, `--name=--` delivers `--`; state = (definition, vector)".into()
     }
     fn bounds(&self, tier: Tier) -> Value {
-        json!({"positionals": "0..3", "vector_length": tier.pick("4 (5 for positional-only levels)", "5 (6 for positional-only levels)")})
+        json!({"positionals": "0..3", "vector_length": tier.pick("5 (4 with three positionals; +1 for positional-only levels)", "6 (7 for positional-only levels)")})
     }
 }
